@@ -119,6 +119,19 @@ def run_unit(ctx: Ctx, cases, terms):
         if o2 != "match":
             unit_fail(ctx, "unit: a server-decorated object that contains the target does not match",
                       f"validate_match on a decorated superset gave {o2}", c2, o2)
+        # 2b. the annotation was recorded for an EARLIER, differently shaped target: never an exception; and when
+        #     no key is compared against last-applied the recorded document is irrelevant (still a match)
+        la_old = B.retype_doc(rng, sent)
+        o2b = B.run_validate(t, live, la_old)
+        c2b = {"kind": "unit", "t": t, "a": live, "la": la_old, "why": "decorated, annotation of another shape"}
+        ctx.note_case(c2b, nontrivial=True)
+        ctx.count(f"unit:la-other-shape:{o2b}")
+        cases.append(c2b)
+        terms.append("C4 (" + B.unit_term(c2b, o2b) + ")")
+        if o2b not in ("match", "mismatch") or (o2b == "mismatch" and B.L not in json.dumps(t)):
+            unit_fail(ctx, "unit: " + B.SIG_LA_SHAPE if o2b not in ("match", "mismatch") else
+                      "unit: a last-applied document of another shape turns a match into a mismatch although no key is compared against it",
+                      f"validate_match(target, decorated superset, retyped last-applied) gave {o2b}", c2b, o2b)
         # 3. RFC 7386 merge of the real payload into any live object matches
         payload = real_payload(t)
         for j in range(2):
@@ -269,6 +282,8 @@ def run_scenario(ctx: Ctx, case, cases, terms):
             break
         muts = pobs["mutations"]
         met = bool(muts and muts[0]["method"] in ("POST", "PATCH")) or (met and not muts)
+        if case.get("contradicts") and muts and muts[0]["method"] == "POST":
+            met = False      # the create overlay wrote something else than the target: one correcting pass is legitimate
         if case["policy"] == "never" and not muts and after is not None:
             met = met  # never: quiet by policy, says nothing about the target
         # server-side decoration between passes
@@ -318,6 +333,15 @@ def gen_scenarios(ctx: Ctx):
         yield {"kind": "scenario", "body": body, "create_overlay": overlay, "policy": rng.choice(["patch", "default", "recreate", "never"]),
                "delay": delay, "create_delay": create_delay, **from_inputs, "owned": owned, "initial": None,
                "decorate_seed": rng.randrange(1000) if rng.random() < 0.6 else None, "passes": 3}
+        # a'. create.overlay writes a target-specified field with ANOTHER container type than the resource does
+        #     (the annotation written by the create then has another shape than the target): no exception; at most
+        #     one correcting pass; then quiet
+        spec_keys = [k for k in body["spec"] if k not in B.DIRS]
+        if spec_keys and bi % 2 == 0:
+            k = rng.choice(spec_keys)
+            yield {"kind": "scenario", "body": body, "create_overlay": {"spec": {k: B.retype_value(rng, body["spec"][k])}},
+                   "contradicts": True, "policy": rng.choice(["patch", "default", "recreate"]), "delay": delay,
+                   "create_delay": create_delay, "owned": owned, "initial": None, "decorate_seed": None, "passes": 4}
         # b. any live object: patch, then quiet
         r = rng.random()
         if r < 0.4:
